@@ -86,4 +86,51 @@ example : ∃ str, toStringL params (make params 0xef 0x0bcd) = some str ∧ str
     (∀ c ∈ str, IsLowerHex c) ∧ parse params str = some (make params 0xef 0x0bcd) :=
   C20_print params C20_valid_pack C20_valid_print 0xef 0x0bcd (by decide) (by decide)
 
+/-! ### The translated source (Gen/C20.lean, `namespace Tr`, rewritten from nodeid.go on every run) equals the model.
+For all inputs; a semantic edit of one of these four bodies changes the generated definition and breaks the theorem. -/
+section Translated
+open Fatchoy.Gen.C20
+
+/-- the translation of `MakeNodeID` is the model's `make` -/
+theorem C20_tr_MakeNodeID (s : BitVec 8) (i : BitVec 16) :
+    (Tr.MakeNodeID s i).toNat = make params s.toNat i.toNat := by
+  have hs := s.isLt
+  have hi := i.isLt
+  have h1 : s.toNat % 256 = s.toNat := Nat.mod_eq_of_lt (by omega)
+  have h2 : i.toNat % 65536 = i.toNat := Nat.mod_eq_of_lt (by omega)
+  have h3 : s.toNat * 65536 % 4294967296 = s.toNat * 65536 := by omega
+  have h4 : i.toNat % 4294967296 = i.toNat := by omega
+  have h5 : (s.toNat * 65536 ||| i.toNat) < 2 ^ 32 := Nat.or_lt_two_pow (by omega) (by omega)
+  simp [Tr.MakeNodeID, make, params, nodeServiceShift, Nat.shiftLeft_eq, h1, h2, h3, h4]
+  omega
+
+/-- the translation of `NodeID.Service` is the model's `service` (every 32-bit id, also client ids) -/
+theorem C20_tr_Service (n : BitVec 32) : (Tr.Service n).toNat = service params n.toNat := by
+  simp [Tr.Service, service, params, nodeServiceShift]
+
+/-- the translation of `NodeID.Instance` is the model's `inst` -/
+theorem C20_tr_Instance (n : BitVec 32) : (Tr.Instance n).toNat = inst n.toNat := by
+  simp [Tr.Instance, inst]
+
+/-- the translation of `NodeID.IsTypeBackend` is the model's `isBackend` -/
+theorem C20_tr_IsTypeBackend (n : BitVec 32) : Tr.IsTypeBackend n = isBackend params n.toNat := by
+  rw [Bool.eq_iff_iff]
+  simp [Tr.IsTypeBackend, isBackend, params, nodeTypeShift, BitVec.toNat_eq]
+
+/-- the property, stated on the translated code itself: every service and instance survives packing -/
+theorem C20_tr_unpack (s : BitVec 8) (i : BitVec 16) :
+    Tr.Service (Tr.MakeNodeID s i) = s ∧ Tr.Instance (Tr.MakeNodeID s i) = i ∧
+      Tr.IsTypeBackend (Tr.MakeNodeID s i) = true := by
+  obtain ⟨h1, h2, h3⟩ := C20_unpack params C20_valid_pack s.toNat i.toNat s.isLt i.isLt
+  refine ⟨BitVec.eq_of_toNat_eq ?_, BitVec.eq_of_toNat_eq ?_, ?_⟩
+  · rw [C20_tr_Service, C20_tr_MakeNodeID, h1]
+  · rw [C20_tr_Instance, C20_tr_MakeNodeID, h2]
+  · rw [C20_tr_IsTypeBackend, C20_tr_MakeNodeID, h3]
+
+/-- test (one sample, not a proof): the translation computes the documented layout, service ≥ 128 -/
+example : Tr.MakeNodeID 0xef 0x0bcd = 0x00ef0bcd#32 ∧ Tr.Service 0x80ef0bcd#32 = 0xef#8 ∧
+    Tr.Instance 0x80ef0bcd#32 = 0x0bcd#16 ∧ Tr.IsTypeBackend 0x80ef0bcd#32 = false := by decide
+
+end Translated
+
 end Fatchoy.C20
